@@ -39,12 +39,13 @@ def units(tier, seed):
     fam = G.general_family(tier)
     us = []
     for spec in fam:
-        for dec in ("maxdepth", "full", "pigrow"):
+        for dec in (("maxdepth", "full", "pigrow") if not spec.get("stringify") else ("maxdepth",)):
             for off in (0, 1) if tier == "quick" else (0, 1, 2):
                 us.append({"kind": "tree-create", "spec": spec, "decider": dec, "depth_off": off,
                            "max_execs": 1500 if tier == "quick" else 20000})
-        us.append({"kind": "tree-create", "spec": spec, "decider": "pt", "depth_off": 0, "horizon": 40,
-                   "max_execs": 400 if tier == "quick" else 5000})
+        if not spec.get("stringify"):
+            us.append({"kind": "tree-create", "spec": spec, "decider": "pt", "depth_off": 0, "horizon": 40,
+                       "max_execs": 400 if tier == "quick" else 5000})
     small = [s for s in fam if s["name"].split(":")[0] in
              ("S1", "S2", "S3", "S5", "S6", "S7", "S8", "S9", "S10", "S11", "S12", "S13", "S14", "S15", "S16", "S17", "S18", "S19", "S20", "S21", "S22", "S23", "S24", "S26")]
     small += [s for s in fam if s["name"].startswith(("F1:", "G1:")) and s["name"].count(",") == 0]
@@ -55,6 +56,8 @@ def units(tier, seed):
             us.append({"kind": "map", "spec": spec, "rep": rep, "depth_off": 1, "L": 3 if tier == "quick" else 4,
                        "max_execs": 20 if tier == "quick" else 100})
         for rep in ("tree", "ge", "sge", "dsge", "stack"):
+            if spec.get("stringify") and rep not in ("tree", "stack"):
+                continue
             us.append({"kind": "e2", "spec": spec, "rep": rep, "depth_off": 1, "L": 3 if rep == "stack" else 2, "K": 2 if tier == "quick" else 3,
                        "max_states": 25 if tier == "quick" else 80,
                        "max_execs_per_op": 60 if tier == "quick" else 300})
